@@ -309,10 +309,9 @@ def lvl_lines(run):
                 st[t] = {"op": "add", "locked": False}
                 emit("%d startAdd" % t)
             elif op[0] == "remove":
-                evs = list(later(pos, tn, ("return",)))
-                if any(e[1] == "W" and e[2] == "core.handlers" for e in evs) and op[1] in hmap:
-                    st[t] = {"op": "remove", "locked": False}
-                    emit("%d startRemove %d" % (t, hmap[op[1]]))
+                # whether the call removes something - and which model handler - is only known when it holds the
+                # lock (the handler may be registered by another thread between the invocation and that moment)
+                st[t] = {"op": "remove", "locked": False, "target": op[1]}
             elif op[0] == "log" and op[2] in run.custom_levels:
                 evs = list(later(pos, tn, ("return",)))
                 if any(e[1] == "Rd" and e[2] == "core.levels_lookup" for e in evs):
@@ -360,9 +359,14 @@ def lvl_lines(run):
                 emit("%d rel" % t)
         elif cur["op"] == "remove":
             if kind == "acquired" and obj == "core":
-                cur["locked"] = True
-                emit("%d acq" % t)
-            elif kind == "W" and obj == "core.handlers":
+                sect = list(later(pos, tn, ("rel",)))
+                if any(e[1] == "W" and e[2] == "core.handlers" for e in sect):
+                    if cur["target"] not in hmap:
+                        return None
+                    cur["locked"] = True
+                    emit("%d startRemove %d" % (t, hmap[cur["target"]]))
+                    emit("%d acq" % t)
+            elif kind == "W" and obj == "core.handlers" and cur["locked"]:
                 emit("%d unreg" % t)
             elif kind == "rel" and obj == "core" and cur["locked"]:
                 cur["locked"] = False
